@@ -75,3 +75,196 @@ package imports
 //@   loop 2: invariant lo(content) <= lo(p) && hi(p) <= hi(content) && cap(p) >= len(p)
 //@   loop 2: decreases len(p)
 //@   loop 3: invariant -1 <= rangeindex
+
+// ---- C18: the import reader (read.go) ----
+// Ghost input (see /verif/specs/io.spec): gIn[0..gLen) is the input, gPos the read position.
+//@ property C18: isIdent, (*importReader).syntaxError, (*importReader).readByte, (*importReader).peekByte, (*importReader).nextByte, (*importReader).readKeyword, (*importReader).readIdent, (*importReader).readString, (*importReader).readImport, ReadImports, ReadComments
+//@ bounded C18: TestVerifBoundedReadImports
+
+//@ extern (*bufio.Reader).ReadByte(b) (c, err)
+//@   modifies gPos
+//@   ensures err == nil ==> old(gPos) < gLen && c == gIn[old(gPos)] && gPos == old(gPos) + 1
+//@   ensures err != nil ==> gPos == old(gPos)
+//@   ensures err == io.EOF ==> gPos == gLen
+
+// the buffer holds exactly the input bytes read so far
+//@ pure func bufIs(b []byte, in arr, pos int) bool = len(b) == pos && forall K {at(b,K)} :: lo(b) <= K && K < hi(b) ==> at(b,K) == in[K - lo(b)]
+
+//@ pure func identByte(c int) bool = ('A' <= c && c <= 'Z') || ('a' <= c && c <= 'z') || ('0' <= c && c <= '9') || c == '_' || c >= 128
+//@ func isIdent
+//@   pure
+//@   ensures result == identByte(c)
+
+//@ func (*importReader).syntaxError
+//@   requires r != nil
+//@   modifies F_S_imports_importReader_err
+//@   ensures r.err != nil && (old(r.err) != nil ==> r.err == old(r.err))
+
+//@ func (*importReader).readByte
+//@   requires r != nil && r.b != nil && bufIs(r.buf, gIn, gPos) && (r.eof ==> gPos == gLen)
+//@   modifies F_S_imports_importReader_buf, F_S_imports_importReader_err, F_S_imports_importReader_eof, bytes, gPos
+//@   ensures bufIs(r.buf, gIn, gPos) && len(r.buf) >= old(len(r.buf)) && len(r.buf) <= old(len(r.buf)) + 1
+//@   ensures result != 0 ==> len(r.buf) >= 1 && r.buf[len(r.buf)-1] == result
+//@   ensures result == 0 ==> r.eof || r.err != nil
+//@   ensures (old(r.err) != nil ==> r.err == old(r.err)) && (old(r.eof) ==> r.eof)
+//@   ensures r.eof ==> gPos == gLen
+//@   ensures old(gPos) == gLen ==> gPos == gLen
+
+// representation invariant of the reader between calls
+//@ pure func peekOK(b []byte, peek int) bool = peek != 0 ==> len(b) >= 1 && at(b, hi(b)-1) == peek
+
+// peekByte: skips (optionally) blanks and comments; the returned byte is the last
+// byte of the buffer; 0 is returned only at end of input or after an error; the
+// explicit "import reader looping" panic is unreachable (nerr stays below its limit).
+//@ func (*importReader).peekByte
+//@   requires r != nil && r.b != nil && bufIs(r.buf, gIn, gPos) && peekOK(r.buf, r.peek) && (r.eof ==> gPos == gLen)
+//@   requires r.err != nil ==> r.nerr < 10000
+//@   modifies F_S_imports_importReader_buf, F_S_imports_importReader_err, F_S_imports_importReader_eof, F_S_imports_importReader_peek, F_S_imports_importReader_nerr, bytes, gPos
+//@   loop 1: invariant bufIs(r.buf, gIn, gPos)
+//@   loop 1: invariant len(r.buf) >= old(len(r.buf))
+//@   loop 1: invariant (c != 0 ==> len(r.buf) >= 1 && r.buf[len(r.buf)-1] == c)
+//@   loop 1: invariant (c == 0 ==> r.eof || r.err != nil)
+//@   loop 1: invariant r.nerr == old(r.nerr)
+//@   loop 1: invariant old(r.err) == nil
+//@   loop 1: invariant (old(r.eof) ==> r.eof)
+//@   loop 1: invariant (r.eof ==> gPos == gLen)
+//@   loop 2: invariant bufIs(r.buf, gIn, gPos)
+//@   loop 2: invariant len(r.buf) >= old(len(r.buf))
+//@   loop 2: invariant (c == 0 ==> r.eof || r.err != nil)
+//@   loop 2: invariant r.nerr == old(r.nerr)
+//@   loop 2: invariant old(r.err) == nil
+//@   loop 2: invariant (old(r.eof) ==> r.eof)
+//@   loop 2: invariant (r.eof ==> gPos == gLen)
+//@   loop 3: invariant bufIs(r.buf, gIn, gPos)
+//@   loop 3: invariant len(r.buf) >= old(len(r.buf))
+//@   loop 3: invariant r.nerr == old(r.nerr)
+//@   loop 3: invariant old(r.err) == nil
+//@   loop 3: invariant (old(r.eof) ==> r.eof)
+//@   loop 3: invariant (r.eof ==> gPos == gLen)
+//@   ensures bufIs(r.buf, gIn, gPos) && peekOK(r.buf, r.peek) && len(r.buf) >= old(len(r.buf))
+//@   ensures result == r.peek || (old(r.err) != nil && result == 0)
+//@   ensures r.err == nil && !r.eof ==> result != 0
+//@   ensures (old(r.err) != nil ==> r.err == old(r.err) && r.nerr == old(r.nerr) + 1 && result == 0) && (old(r.err) == nil ==> r.nerr == old(r.nerr)) && (old(r.eof) ==> r.eof)
+//@   ensures r.eof ==> gPos == gLen
+
+//@ func (*importReader).nextByte
+//@   requires r != nil && r.b != nil && bufIs(r.buf, gIn, gPos) && peekOK(r.buf, r.peek) && (r.eof ==> gPos == gLen)
+//@   requires r.err != nil ==> r.nerr < 10000
+//@   modifies F_S_imports_importReader_buf, F_S_imports_importReader_err, F_S_imports_importReader_eof, F_S_imports_importReader_peek, F_S_imports_importReader_nerr, bytes, gPos
+//@   ensures bufIs(r.buf, gIn, gPos) && r.peek == 0 && len(r.buf) >= old(len(r.buf))
+//@   ensures result != 0 ==> len(r.buf) >= 1 && r.buf[len(r.buf)-1] == result
+//@   ensures r.err == nil && !r.eof ==> result != 0
+//@   ensures (old(r.err) != nil ==> r.err == old(r.err) && r.nerr == old(r.nerr) + 1 && result == 0) && (old(r.err) == nil ==> r.nerr == old(r.nerr)) && (old(r.eof) ==> r.eof)
+//@   ensures r.eof ==> gPos == gLen
+
+// Common shape of the parsing helpers: they keep the reader invariant, errors and
+// EOF are sticky, and they add at most K to nerr (and nothing while err == nil).
+
+//@ func (*importReader).readKeyword
+//@   requires r != nil && r.b != nil && bufIs(r.buf, gIn, gPos) && peekOK(r.buf, r.peek) && (r.eof ==> gPos == gLen) && r.nerr + len(kw) + 2 <= 10000
+//@   modifies F_S_imports_importReader_buf, F_S_imports_importReader_err, F_S_imports_importReader_eof, F_S_imports_importReader_peek, F_S_imports_importReader_nerr, bytes, gPos
+//@   loop 1: invariant bufIs(r.buf, gIn, gPos)
+//@   loop 1: invariant len(r.buf) >= old(len(r.buf))
+//@   loop 1: invariant (old(r.err) != nil ==> r.err == old(r.err))
+//@   loop 1: invariant (old(r.eof) ==> r.eof)
+//@   loop 1: invariant (r.eof ==> gPos == gLen)
+//@   loop 1: invariant (r.err == nil ==> r.nerr == old(r.nerr))
+//@   loop 1: invariant 0 <= rangeint && rangeint < len(kw)
+//@   loop 1: invariant peekOK(r.buf, r.peek)
+//@   loop 1: invariant r.nerr <= old(r.nerr) + 1 + rangeint
+//@   ensures bufIs(r.buf, gIn, gPos)
+//@   ensures peekOK(r.buf, r.peek)
+//@   ensures len(r.buf) >= old(len(r.buf))
+//@   ensures r.nerr <= old(r.nerr) + len(kw) + 2
+//@   ensures r.err == nil ==> r.nerr == old(r.nerr)
+//@   ensures old(r.err) != nil ==> r.err == old(r.err)
+//@   ensures old(r.eof) ==> r.eof
+//@   ensures r.eof ==> gPos == gLen
+
+//@ func (*importReader).readIdent
+//@   requires r != nil && r.b != nil && bufIs(r.buf, gIn, gPos) && peekOK(r.buf, r.peek) && (r.eof ==> gPos == gLen) && r.nerr + 2 <= 10000
+//@   modifies F_S_imports_importReader_buf, F_S_imports_importReader_err, F_S_imports_importReader_eof, F_S_imports_importReader_peek, F_S_imports_importReader_nerr, bytes, gPos
+//@   loop 1: invariant bufIs(r.buf, gIn, gPos)
+//@   loop 1: invariant len(r.buf) >= old(len(r.buf))
+//@   loop 1: invariant (old(r.err) != nil ==> r.err == old(r.err))
+//@   loop 1: invariant (old(r.eof) ==> r.eof)
+//@   loop 1: invariant (r.eof ==> gPos == gLen)
+//@   loop 1: invariant (r.err == nil ==> r.nerr == old(r.nerr))
+//@   loop 1: invariant peekOK(r.buf, r.peek)
+//@   loop 1: invariant r.nerr == old(r.nerr)
+//@   ensures bufIs(r.buf, gIn, gPos)
+//@   ensures peekOK(r.buf, r.peek)
+//@   ensures len(r.buf) >= old(len(r.buf))
+//@   ensures r.nerr <= old(r.nerr) + 2
+//@   ensures r.err == nil ==> r.nerr == old(r.nerr)
+//@   ensures old(r.err) != nil ==> r.err == old(r.err)
+//@   ensures old(r.eof) ==> r.eof
+//@   ensures r.eof ==> gPos == gLen
+
+// readString: r.buf[start:] is always in bounds (start is the position of the opening quote).
+//@ func (*importReader).readString
+//@   requires r != nil && r.b != nil && bufIs(r.buf, gIn, gPos) && peekOK(r.buf, r.peek) && (r.eof ==> gPos == gLen) && r.nerr + 3 <= 10000
+//@   modifies F_S_imports_importReader_buf, F_S_imports_importReader_err, F_S_imports_importReader_eof, F_S_imports_importReader_peek, F_S_imports_importReader_nerr, bytes, gPos, C_Slice, H_Str
+//@   loop 1: invariant bufIs(r.buf, gIn, gPos)
+//@   loop 1: invariant len(r.buf) >= old(len(r.buf))
+//@   loop 1: invariant (old(r.err) != nil ==> r.err == old(r.err))
+//@   loop 1: invariant (old(r.eof) ==> r.eof)
+//@   loop 1: invariant (r.eof ==> gPos == gLen)
+//@   loop 1: invariant (r.err == nil ==> r.nerr == old(r.nerr))
+//@   loop 1: invariant 0 <= start && start < len(r.buf)
+//@   loop 1: invariant r.peek == 0
+//@   loop 1: invariant r.nerr <= old(r.nerr) + 1
+//@   loop 2: invariant bufIs(r.buf, gIn, gPos)
+//@   loop 2: invariant len(r.buf) >= old(len(r.buf))
+//@   loop 2: invariant (old(r.err) != nil ==> r.err == old(r.err))
+//@   loop 2: invariant (old(r.eof) ==> r.eof)
+//@   loop 2: invariant (r.eof ==> gPos == gLen)
+//@   loop 2: invariant (r.err == nil ==> r.nerr == old(r.nerr))
+//@   loop 2: invariant 0 <= start && start < len(r.buf)
+//@   loop 2: invariant r.peek == 0
+//@   loop 2: invariant r.nerr <= old(r.nerr) + 1
+//@   ensures bufIs(r.buf, gIn, gPos)
+//@   ensures peekOK(r.buf, r.peek)
+//@   ensures len(r.buf) >= old(len(r.buf))
+//@   ensures r.nerr <= old(r.nerr) + 3
+//@   ensures r.err == nil ==> r.nerr == old(r.nerr)
+//@   ensures old(r.err) != nil ==> r.err == old(r.err)
+//@   ensures old(r.eof) ==> r.eof
+//@   ensures r.eof ==> gPos == gLen
+
+//@ func (*importReader).readImport
+//@   requires r != nil && r.b != nil && bufIs(r.buf, gIn, gPos) && peekOK(r.buf, r.peek) && (r.eof ==> gPos == gLen) && r.nerr + 6 <= 10000
+//@   modifies F_S_imports_importReader_buf, F_S_imports_importReader_err, F_S_imports_importReader_eof, F_S_imports_importReader_peek, F_S_imports_importReader_nerr, bytes, gPos, C_Slice, H_Str
+//@   ensures bufIs(r.buf, gIn, gPos)
+//@   ensures peekOK(r.buf, r.peek)
+//@   ensures len(r.buf) >= old(len(r.buf))
+//@   ensures r.nerr <= old(r.nerr) + 6
+//@   ensures r.err == nil ==> r.nerr == old(r.nerr)
+//@   ensures old(r.err) != nil ==> r.err == old(r.err)
+//@   ensures old(r.eof) ==> r.eof
+//@   ensures r.eof ==> gPos == gLen
+
+// ReadImports / ReadComments: for every input and every I/O outcome nothing panics
+// (the slice r.buf[:len(r.buf)-1] is taken only when a byte has been read), the
+// "import reader looping" guard is never reached, and the returned bytes are a
+// prefix of the input: either everything read so far minus the peeked byte, or
+// (syntax errors not requested) the whole input.
+//@ func ReadImports
+//@   names (data, err)
+//@   requires gPos == 0 && gLen >= 0
+//@   modifies bytes, gPos, C_Slice, H_Str, F_S_imports_importReader_*
+//@   loop 1: invariant r != nil && r.b != nil && bufIs(r.buf, gIn, gPos) && peekOK(r.buf, r.peek) && (r.eof ==> gPos == gLen)
+//@   loop 1: invariant r.nerr <= 60 && (r.err == nil ==> r.nerr == 0)
+//@   loop 2: invariant r != nil && r.b != nil && bufIs(r.buf, gIn, gPos) && peekOK(r.buf, r.peek) && (r.eof ==> gPos == gLen)
+//@   loop 2: invariant r.nerr <= 40 && (r.err == nil ==> r.nerr == 0)
+//@   loop 3: invariant r != nil && r.b != nil && bufIs(r.buf, gIn, gPos) && (r.eof ==> gPos == gLen)
+//@   ensures forall K {at(data,K)} :: lo(data) <= K && K < hi(data) ==> at(data,K) == gIn[K - lo(data)]
+//@   ensures len(data) <= gPos
+//@   ensures err == nil ==> len(data) == gPos - 1 || len(data) == gLen
+
+//@ func ReadComments
+//@   names (data, err)
+//@   requires gPos == 0 && gLen >= 0
+//@   modifies bytes, gPos, F_S_imports_importReader_*
+//@   ensures forall K {at(data,K)} :: lo(data) <= K && K < hi(data) ==> at(data,K) == gIn[K - lo(data)]
+//@   ensures len(data) <= gPos
